@@ -138,6 +138,7 @@ fn real_main(mut args: Vec<String>) -> i32 {
                 "C20" => props::c20::run(&tier, seed),
                 "C17" => props::c17::run(&tier, seed),
                 "C06" | "C18" => props::e3::run(prop, &tier, seed),
+                "C08" => props::c08::run(&tier, seed),
                 _ => {
                     out!("MACHINERY-ERROR: unknown property {}", prop);
                     return 2;
@@ -177,6 +178,7 @@ fn replay(path: &str, worker: bool) -> i32 {
             "c12-string" => props::c12::replay(r),
             "c17-string" => props::c17::replay(r),
             "e3-word" => props::e3::replay(&prop, r),
+            "c08-tiny" => props::c08::replay(r),
             _ => Err(format!("unknown replay kind {:?}", kind)),
         }
     };
